@@ -158,7 +158,12 @@ func (s *ClientSideCompositeSyncer) Sync(ctx context.Context, cm *claim.Unstruct
 	// the next reconcile.
 	existing := cm.GetResourceReference()
 	proposed := xr.GetReference()
-	if !cmp.Equal(existing, proposed) {
+	// We're about to create an XR. Even if the claim already references it,
+	// write the claim first: if our copy of the claim is stale (e.g. read from
+	// a lagging cache after the claim was deleted and its XR with it) the API
+	// server rejects the write, and we don't create an XR nobody would clean
+	// up. This is a no-op for an up-to-date claim.
+	if !cmp.Equal(existing, proposed) || !meta.WasCreated(xr) {
 		cm.SetResourceReference(proposed)
 		if err := s.client.Update(ctx, cm); err != nil {
 			return errors.Wrap(err, errUpdateClaim)
